@@ -650,13 +650,23 @@ def try_to_hashable(
         return UnhashableError
 
 
+def _sorted(iterable: Iterable, key: Callable[[Any], Any] | None = None) -> list:
+    """Sort, falling back to a type-name/repr order for items that cannot be compared."""
+    items = list(iterable)
+    try:
+        return sorted(items, key=key)
+    except TypeError:
+        k = key or (lambda x: x)
+        return sorted(items, key=lambda x: (type(k(x)).__qualname__, repr(k(x))))
+
+
 def _hashable_iterable(
     iterable: Iterable,
     fallback_to_pickle: bool,  # noqa: FBT001
     *,
     sort: bool = False,
 ) -> tuple:
-    items = sorted(iterable) if sort else iterable
+    items = _sorted(iterable) if sort else iterable
     return tuple(to_hashable(item, fallback_to_pickle) for item in items)
 
 
@@ -666,7 +676,7 @@ def _hashable_mapping(
     *,
     sort: bool = False,
 ) -> tuple:
-    items = sorted(mapping.items()) if sort else mapping.items()
+    items = _sorted(mapping.items(), key=lambda kv: kv[0]) if sort else mapping.items()
     return tuple((k, to_hashable(v, fallback_to_pickle)) for k, v in items)
 
 
@@ -727,7 +737,7 @@ def to_hashable(  # noqa: C901, PLR0911, PLR0912
         )
         return (m, tp, data)
     if isinstance(obj, collections.Counter):
-        return (m, tp, tuple(sorted(obj.items())))
+        return (m, tp, tuple(_sorted(obj.items(), key=lambda kv: kv[0])))
     if isinstance(obj, dict):
         return (m, tp, _hashable_mapping(obj, fallback_to_pickle, sort=True))
     if isinstance(obj, set | frozenset):
